@@ -32,8 +32,7 @@ ASSUMPTIONS = [
     "operands are int/float/bool/str; user-defined operand types with reflected operators are not generated",
     "the loop-filter cases put arithmetic either in the filter or in the body (not both), so lazy vs eager filtering order is not constrained",
     "macro defaults are exercised with one call directly after the definition",
-    "programs in which ** gets a negative left operand are discarded (a folded negative constant base is emitted as -7 ** x by the compiler: an expression-semantics defect outside this property)",
-    "programs whose plain-Python evaluation raises (ZeroDivisionError, TypeError) or exceeds 1e12 are discarded",
+    "programs whose plain-Python evaluation raises (ZeroDivisionError, TypeError), exceeds 1e12, yields complex numbers, or sums floats with |sum (builtin sum compensates rounding) are discarded",
 ]
 NSHARDS = {"quick": 16, "thorough": 16}
 BUDGET_S = {"quick": 12, "thorough": 240}
